@@ -85,6 +85,7 @@ pub fn substitute(prog: &[GOp], pool: &Pool) -> Vec<GOp> {
             // constants are part of the circuit's definition and stay fixed
             GOp::AllocElem { dst, src, mode, via } if *mode != Mode::Constant => GOp::AllocElem { dst: *dst, src: next_r(src), mode: *mode, via: *via },
             GOp::AllocFq { dst, val, mode } if *mode != Mode::Constant => GOp::AllocFq { dst: *dst, val: next_n(val), mode: *mode },
+            GOp::AllocLazy { dst, val, mode } => GOp::AllocLazy { dst: *dst, val: next_n(val), mode: *mode },
             GOp::ScalarMul { dst, a, k, nbits, bits_const } if !*bits_const => GOp::ScalarMul { dst: *dst, a: *a, k: next_n(k), nbits: *nbits, bits_const: false },
             GOp::CondEnforceEqual { a, b, cond } => GOp::CondEnforceEqual { a: *a, b: *b, cond: next_b(*cond) },
             GOp::CondEnforceNotEqual { a, b, cond } => GOp::CondEnforceNotEqual { a: *a, b: *b, cond: next_b(*cond) },
@@ -104,7 +105,7 @@ fn synth_shape(prog: &[GOp], setup: bool, ctx: &mut Ctx) -> Result<Option<(u64, 
         match m.step(op, ctx) {
             Ok(_) => {}
             Err(f) => {
-                if m.expect_unsat.is_some() && !setup {
+                if (m.expect_unsat.is_some() || m.consuming_poison()) && !setup {
                     return Ok(None);
                 }
                 return Err(f);
